@@ -18,7 +18,7 @@ sys.path.insert(0, os.path.join(HERE, "..", "bytesym"))
 import vcommon as V
 from vcommon import log
 import z3
-import core, ref, driver as D, gen01, gen15, gen07, gen12, gen08, gen13, gen17, gen04
+import core, ref, driver as D, gen01, gen15, gen07, gen12, gen08, gen13, gen17, gen04, gen02
 
 LIMITS = {"timeout_ms": 4000, "max_steps": 6000, "max_paths": 160, "max_depth": 10, "budget_s": 90}
 G = {}
@@ -37,7 +37,7 @@ def build_cli(scratch):
 
 
 def family(prop):
-    return {"C01": gen01, "C15": gen15, "C07": gen07, "C12": gen12, "C08": gen08, "C13": gen13, "C17": gen17, "C04": gen04, "C18": gen04}[prop]
+    return {"C01": gen01, "C15": gen15, "C07": gen07, "C12": gen12, "C08": gen08, "C13": gen13, "C17": gen17, "C04": gen04, "C18": gen04, "C02": gen02}[prop]
 
 
 def path_models(paths, nin, limit):
@@ -78,7 +78,115 @@ def norm(lines):
 PIPELINE = {"C04": "execute", "C18": "transpile"}
 
 
+# ---------------------------------------------------------------- C02: accepted programs never hit a dynamic type failure
+ALLOWED_FAILURES = ("assert ", "arith ", "unwrap ", "vec_op index out of bounds", "bin_op invalid binary operation on nil", "lookup nil object", "remove index out of range",
+                    "bin_op invalid binary operation on an Optional")
+REAL_ALLOWED = ("assertion failed", "divide by zero", "overflow", "out of bounds", "nil", "None", "unwrap", "does not fit", "stack overflow")
+
+
+TYPE_TEXT = re.compile(r"^\(*(int|bool|str|bigint|float|byte|fn\(|\[|map\[|K$|K\?)")
+
+
+def kind_ok(v, t):
+    """does the run-time value v have the kind the static type text t names?  (nil excepted - C02)"""
+    from core import NIL, ListRef, MapRef, Fn, Obj, Some, is_int, is_bool
+    t = t.strip()
+    if v is NIL:
+        return True
+    if isinstance(v, Some):
+        return t.endswith("?") and kind_ok(v.v, t[:-1])
+    if t.endswith("?"):
+        return kind_ok(v, t[:-1])
+    if t.startswith("(") and t.endswith(")"):
+        return kind_ok(v, t[1:-1])
+    if t == "int":
+        return is_int(v)
+    if t == "bool":
+        return is_bool(v)
+    if t == "str" or t.startswith("str("):
+        return isinstance(v, tuple) and v[0] == "str"
+    if t.startswith("fn("):
+        return isinstance(v, Fn)
+    if t.startswith("map["):
+        return isinstance(v, MapRef)
+    if t.startswith("["):
+        if not isinstance(v, ListRef):
+            return False
+        if t.endswith("...]"):
+            return all(kind_ok(x, t[1:-4]) for x in v.items)
+        return True
+    if t in ("bigint", "float", "byte"):
+        return False if (is_int(v) or is_bool(v) or isinstance(v, (tuple, ListRef, MapRef, Fn, Obj))) else None
+    if isinstance(v, Obj):
+        return True
+    return None          # a type text this check does not interpret
+
+
+def work_c02(job):
+    idx, item, validate = job
+    prop, exe, wdir = G["prop"], G["exe"], G["wdir"]
+    prog = gen02.program(*item)
+    stem = "t%05d_%d" % (idx, os.getpid())
+    res = {"idx": idx, "item": item, "what": gen02.describe(item), "violations": [], "mismatch": []}
+    t = time.time()
+    try:
+        funcs, mp = D.compile_raw(exe, wdir, stem, ref.render(prog))
+    except RuntimeError as e:
+        res.update(status="rejected", reason=str(e)[-200:], t=time.time() - t)
+        return res
+    try:
+        limits = dict(LIMITS, deadline=time.time() + LIMITS["budget_s"])
+        paths, ex = D.explore_impl(funcs, mp, gen02.NIN, (), limits)
+        res.update(status="ok", impl_paths=len(paths), queries=ex.queries, unknown=ex.unknowns, validated=0,
+                   bound_paths=sum(1 for p in paths if p["status"] == "bound"), fail_paths=sum(1 for p in paths if p["status"] == "fail"))
+        res["probes"] = 0
+        for vals, p in path_models(paths, gen02.NIN, 400):
+            why = None
+            if p["status"] == "fail" and not p["detail"].startswith(ALLOWED_FAILURES):
+                why = "dynamic type failure: " + p["detail"]
+            out = p["out"]
+            for k in range(0, len(out) - 1):
+                a, b = out[k], out[k + 1]
+                if isinstance(a, tuple) and a[0] == "str" and TYPE_TEXT.match(a[1]):      # a `typeof` line followed by the value
+                    res["probes"] += 1
+                    if kind_ok(b, a[1]) is False and why is None:
+                        why = "a value of another kind than `typeof` reports (%s)" % a[1]
+            st, lines, detail = D.predict_impl(funcs, mp, vals)
+            lines = norm(lines)
+            rc, rout, err = D.run_real(exe, wdir, stem + "r", ref.render(prog, vals), full_stderr=True)
+            res["validated"] += 1
+            agrees = rc is not None and (rc == 0) == (st == "ok") and rout == lines
+            if not agrees:
+                res["mismatch"].append({"inputs": vals, "predicted": [st, lines, detail], "real": [rc, rout, err[-300:]]})
+            if why:
+                last = [l for l in err.strip().split("\n") if l.strip()]
+                real_allowed = rc == 0 or any(a in err for a in REAL_ALLOWED) and "type" not in why
+                res["violations"].append({"inputs": vals, "why": why, "expected": ["accepted by the compiler: no dynamic type failure, values of the reported kind", []],
+                                          "real": [rc, rout, err[-500:]], "reproduced": agrees})
+        if res["violations"]:
+            res["status"] = "violation"
+        elif ex.unknowns:
+            res["status"] = "unknown"
+    except core.TooManyPaths as e:
+        res.update(status="outside-bound", reason=str(e))
+    except core.Deadline:
+        res.update(status="unknown", reason="time budget used up")
+    except core.Unsupported as e:
+        res.update(status="unsupported", reason=str(e)[:300])
+    except Exception as e:   # noqa
+        res.update(status="unsupported", reason="%s: %s" % (type(e).__name__, str(e)[:300]))
+    for suf in ("", "r"):
+        try:
+            os.remove(os.path.join(wdir, stem + suf + ".ms"))
+        except OSError:
+            pass
+    res["t"] = time.time() - t
+    return res
+
+
 def work(job):
+    if G["prop"] == "C02":
+        return work_c02(job)
     idx, item, validate = job
     prop, exe, wdir = G["prop"], G["exe"], G["wdir"]
     fam = family(prop)
@@ -174,6 +282,10 @@ def classify(prop, item, why):
 def known_match(known, prop, item, v):
     """known findings of C01 are keyed by the construct that must be present and the symptom class"""
     for k, f in known.items():
+        if f.get("program_class") and prop != "C01":
+            if re.search(f["program_class"], family(prop).describe(item)) and f.get("symptom", "") in v["why"]:
+                return f
+            continue
         need = f.get("needs_forms")
         if need and prop == "C01":
             spine = item[0]
@@ -224,6 +336,8 @@ def select(prop, tier):
         return gen17.select(tier, V.seed())
     if prop in ("C04", "C18"):
         return gen04.select(tier, V.seed())
+    if prop == "C02":
+        return gen02.select(tier, V.seed())
     if prop == "C01":
         if tier == "quick":
             return gen01.select([(1, None), (2, 1100), (3, 200)], V.seed(), deep=80)
@@ -332,6 +446,8 @@ def report(a, prop, results, space, full_depth, t0):
         "samples": samples,
         "programs_ok (every pair of jointly feasible paths behaves alike, for all inputs)": len(ok),
         "programs_outside_bound (more than %d paths: not examined, outside the claim)" % LIMITS["max_paths"]: len(outside),
+        "programs_rejected_by_the_compiler (C02 says nothing about them)": sum(1 for r in results if r.get("status") == "rejected"),
+        "typeof_probes_checked (value kind vs. the static type text, per explored path)": sum(r.get("probes", 0) for r in results),
         "programs_violating": len(viol), "programs_undecided": len(unk), "programs_unsupported": len(unsup),
         "implementation_paths": sum(r.get("impl_paths", 0) for r in results), "reference_paths": sum(r.get("ref_paths", 0) for r in results),
         "path_pairs_decided_by_solver": npairs, "solver_queries": nq,
@@ -377,6 +493,15 @@ def replay(a, prop):
     d = json.load(open(a.replay))
     fam = family(prop)
     item = d["item"]
+    if prop == "C02":
+        res = work_c02((0, tuplify(item), 400))
+        hits = [v for v in res.get("violations", []) if v.get("reproduced")]
+        print("program %s: %s, %d violating paths" % (res["what"], res.get("status"), len(hits)))
+        if hits:
+            print("VIOLATION property=%s replay=%s" % (prop, a.replay))
+            return V.EXIT_VIOLATION
+        print("not reproduced on the current tree")
+        return V.EXIT_OK
     if prop in PIPELINE:
         item = tuplify(item)
     else:
